@@ -998,6 +998,7 @@ void reb_calculate_acceleration(struct reb_simulation* r){
 void reb_calculate_acceleration_var(struct reb_simulation* r){
     struct reb_particle* const particles = r->particles;
     const double G = r->G;
+    const double softening2 = r->softening*r->softening; // same softened potential as for the real particles
     const unsigned int _gravity_ignore_terms = r->gravity_ignore_terms;
     const int _testparticle_type   = r->testparticle_type;
     const int N = r->N;
@@ -1038,7 +1039,7 @@ void reb_calculate_acceleration_var(struct reb_simulation* r){
                             const double dx = particles[i].x - particles[j].x;
                             const double dy = particles[i].y - particles[j].y;
                             const double dz = particles[i].z - particles[j].z;
-                            const double r2 = dx*dx + dy*dy + dz*dz;
+                            const double r2 = dx*dx + dy*dy + dz*dz + softening2;
                             const double _r  = sqrt(r2);
                             const double r3inv = 1./(r2*_r);
                             const double r5inv = 3.*r3inv/r2;
@@ -1077,7 +1078,7 @@ void reb_calculate_acceleration_var(struct reb_simulation* r){
                             const double dx = particles[i].x - particles[j].x;
                             const double dy = particles[i].y - particles[j].y;
                             const double dz = particles[i].z - particles[j].z;
-                            const double r2 = dx*dx + dy*dy + dz*dz;
+                            const double r2 = dx*dx + dy*dy + dz*dz + softening2;
                             const double _r  = sqrt(r2);
                             const double r3inv = 1./(r2*_r);
                             const double r5inv = 3.*r3inv/r2;
@@ -1125,7 +1126,7 @@ void reb_calculate_acceleration_var(struct reb_simulation* r){
                             const double dx = particles[i].x - particles[j].x;
                             const double dy = particles[i].y - particles[j].y;
                             const double dz = particles[i].z - particles[j].z;
-                            const double r2 = dx*dx + dy*dy + dz*dz;
+                            const double r2 = dx*dx + dy*dy + dz*dz + softening2;
                             const double _r  = sqrt(r2);
                             const double r3inv = 1./(r2*_r);
                             const double r5inv = 3.*r3inv/r2;
@@ -1177,7 +1178,7 @@ void reb_calculate_acceleration_var(struct reb_simulation* r){
                             const double dx = particles[i].x - particles[j].x;
                             const double dy = particles[i].y - particles[j].y;
                             const double dz = particles[i].z - particles[j].z;
-                            const double r2 = dx*dx + dy*dy + dz*dz;
+                            const double r2 = dx*dx + dy*dy + dz*dz + softening2;
                             const double r  = sqrt(r2);
                             const double r3inv = 1./(r2*r);
                             const double r5inv = r3inv/r2;
@@ -1271,7 +1272,7 @@ void reb_calculate_acceleration_var(struct reb_simulation* r){
                             const double dx = particles[i].x - particles[j].x;
                             const double dy = particles[i].y - particles[j].y;
                             const double dz = particles[i].z - particles[j].z;
-                            const double r2 = dx*dx + dy*dy + dz*dz;
+                            const double r2 = dx*dx + dy*dy + dz*dz + softening2;
                             const double r  = sqrt(r2);
                             const double r3inv = 1./(r2*r);
                             const double r5inv = r3inv/r2;
